@@ -1787,7 +1787,11 @@ func (t *http2Client) reader(errCh chan<- error) {
 		case *http2.PingFrame:
 			t.handlePing(frame)
 		case *http2.GoAwayFrame:
-			errClose = t.handleGoAway(frame)
+			if errClose = t.handleGoAway(frame); errClose != nil {
+				// A connection error: stop reading; the deferred function
+				// closes the transport.
+				return
+			}
 		case *http2.WindowUpdateFrame:
 			t.handleWindowUpdate(frame)
 		default:
